@@ -72,6 +72,7 @@ func c11Boundary(length int) []*int64 {
 
 type c11Plan struct {
 	nA, nC, nD, nE int
+	nF             int    // part F (b13_helpers.go): arrays of 65 536 elements and more
 	bOff           [8]int // first case index of part B for each length (relative to the start of B)
 	nB             int
 }
@@ -86,16 +87,18 @@ func c11Layout(tier string) c11Plan {
 	p.bOff[7] = p.nB
 	p.nD = 1000
 	p.nE = 60
+	p.nF = 40
 	if tier == "thorough" {
 		p.nD = 120000
 		p.nE = 6000
+		p.nF = 2000
 	}
 	return p
 }
 
 func (c11) Count(tier string) int {
 	p := c11Layout(tier)
-	return p.nA + p.nB + p.nC + p.nD + p.nE
+	return p.nA + p.nB + p.nC + p.nD + p.nE + p.nF
 }
 
 // c11Adjust: PySlice_AdjustIndices for one bound.
@@ -654,6 +657,11 @@ func (c11) Exec(seed int64, i int, tier string) Record {
 		if r.Chance(50) {
 			spell = r
 		}
+	case i >= plan.nA+plan.nB+plan.nC+plan.nD+plan.nE:
+		part = "F"
+		spell = r
+		b.rec.Text = "giant arrays"
+		b.giant(r)
 	case i >= plan.nA+plan.nB+plan.nC+plan.nD:
 		part = "E"
 		spell = r
@@ -758,7 +766,7 @@ func (c11) Exec(seed int64, i int, tier string) Record {
 	}
 	sort.Strings(b.rec.Tags)
 	if b.nonempty > 0 {
-		if part == "D" || part == "E" {
+		if part == "D" || part == "E" || part == "F" {
 			// distinct by the sign / magnitude classes of the first selecting subscript list
 			b.rec.Key = part + "/" + b.firstKey
 		} else {
